@@ -42,6 +42,8 @@ type loopInfo struct {
 }
 
 type FuncExec struct {
+	curSiteFrame *CallSiteSpec
+	havocNames map[string]bool // contract-less callees abstracted by the import-closure rule
 	envWrites map[string][]string // heap key -> refs havocked at Lock (interference, not this function's writes)
 	V       *Verifier
 	fn      *ssa.Function
@@ -1442,6 +1444,11 @@ func (fx *FuncExec) binop(st *State, op token.Token, a, b Val, rt types.Type, em
 			}
 		case a.Sort == SF64:
 			t = fmt.Sprintf("(fp.eq %s %s)", a.S, b.S)
+		case a.Sort == SStr && emitSafety && !strings.HasPrefix(a.S, "|lit") && !strings.HasPrefix(b.S, "|lit"):
+			// a string comparison of the program between two non-literal strings: give the solver the
+			// extensionality instance for this pair (equal bytes = equal strings); gs.ext is only a trigger
+			fx.em.Assert(fmt.Sprintf("(gs.ext %s %s)", a.S, b.S))
+			t = eq(a.S, b.S)
 		default:
 			t = eq(a.S, b.S)
 		}
